@@ -236,7 +236,7 @@ Theorem C03_quiescent_wf_partial :
     (forall s s', cc_tree_of s = cc_tree_of s' -> P s -> P s') ->
     (forall s p, A (Create p) -> P s -> P (fst (m_create s (normalize_path p)))) ->
     (forall s p fl pm s' x, A (OpenFile p fl pm) ->
-        cc_open_or_create s (normalize_path p) fl (Z.land pm chmod_bits) = Some (s', x) -> P s -> P s') ->
+        cc_open_or_create s (normalize_path p) fl (Z.land pm chmod_bits) = inr (s', x) -> P s -> P s') ->
     (forall s p, A (RemoveAll p) -> P s -> P (fst (m_removeall s (normalize_path p)))) ->
     (forall s p pm, A (Mkdir p pm) \/ A (MkdirAll p pm) -> lookup s (normalize_path p) = None ->
                     P s -> P (cc_mkdir_body s (normalize_path p) (Z.land pm chmod_bits))) ->
